@@ -292,6 +292,19 @@ def shard(spec) -> core.Acc:
     elif kind == 'extra':
         check_shared_blocks(acc)
         check_after_polluter(acc)
+    elif kind == 'long':
+        # long names / values (several KiB) holding one escapable character at the start, middle or end
+        for n in (spec[1],):
+            for c in ('"', '\\', '\t', '\n', '{', ' '):
+                for pos in (0, n // 2, n - 1):
+                    body = ['x'] * n
+                    body[pos] = c
+                    long_s = ''.join(body)
+                    for role, mk in ROLES.items():
+                        if c == '\n' and role != 'leaf_value':
+                            continue          # names are single-line by the format
+                        check_doc(acc, [mk(long_s)], CORNER_CONFIGS[:1], False, {'gen': 'long', 'role': role})
+                        acc.nontrivial += 1
     elif kind == 'uni':
         _, role, lo, hi = spec
         targets = []
@@ -343,6 +356,8 @@ def run(ctx: core.Ctx) -> None:
     for a in itertools.chain.from_iterable(itertools.product(NAME_SIGMA, repeat=k) for k in range(0, 3)):
         shards.append(('pair', ''.join(a), 2 if (len(a) <= 1 or not ctx.quick) else 1))
     shards.append(('extra',))
+    for n in (1000, 1001, 4095, 4096, 4097, 9000):
+        shards.append(('long', n))
     step = 0x1000
     for role in ROLES:
         for lo in range(0, 0x110000, step):
@@ -356,7 +371,7 @@ def run(ctx: core.Ctx) -> None:
                 f'length <= {L} over a {len(SIGMA)}-character syntax alphabet (no CR/LF in names) in each of 4 roles inside a '
                 f'3-level context tree, and all (name, value) pairs of strings of length <= 2; (c) every Unicode scalar value '
                 f'alone and between two letters in each role ({"BMP in all roles, astral planes as leaf value" if ctx.quick else "all planes in all roles"}); each text re-parsed from str, file object, lines, characters '
-                f'(and every two-chunk split for the smallest documents); trees sharing one block object at several places; round trips '
+                f'(and every two-chunk split for the smallest documents); trees sharing one block object at several places; names and values of 1000..9000 characters with an escapable character at either end or in the middle; round trips '
                 f'preceded by an unrelated call (early-returning single_block parse, parse error, abandoned tokenizer). Non-trivial = every generated document (each is '
                 f'enumerated once).')
 
